@@ -123,7 +123,7 @@ func init() {
 		ruleMemberLoops(func(k string) bool { return k == "clip.line" || k == "clip.MultiLineString" || k == "clip.MultiPoint" }, 2, 1),
 		ruleRegionCodes(clipRegionFuncs, true),
 		ruleOpenFlagFlow,
-		ruleCompose(concatSpecs(clipLineMemberSpecs, clipVertexSpecs), 14),
+		ruleCompose(concatSpecs(clipLineMemberSpecs, clipVertexSpecs, boundSpecsOf("MultiPoint", "LineString", "MultiLineString")), 17),
 	)
 
 	register("C08",
@@ -135,7 +135,7 @@ func init() {
 		ruleRegionCodes(clipRegionFuncs, true),
 		ruleLoopShapes(inPkgs("clip."), 1, 5),
 		ruleBoxIntersection,
-		ruleCompose(concatSpecs(clipRingMemberSpecs, clipRingVertexSpecs), 14),
+		ruleCompose(concatSpecs(clipRingMemberSpecs, clipRingVertexSpecs, boundSpecsOf("Ring", "Polygon", "MultiPolygon", "Collection")), 18),
 	)
 
 	register("C09",
